@@ -210,7 +210,16 @@ pub fn strategy() -> BoxedStrategy<Case> {
             let blocks = cs.into_iter().map(|(c, rest)| if rest { Block::Const { c: 0.0, u0: 0.0 } } else { Block::Const { c: if c == 0.0 { 1.0 } else { c }, u0: 0.0 } }).collect();
             Case { prob: ProbSpec { blocks, warp, mix: None, mag2: 0 }, span: mk_span(0.0, 10f64.powf(e), back), method, rtol, atol, max_step: Some(max_step), first_step: None, max_steps: None, analytic_jac }
         });
-    prop_oneof![24 => general, 1 => degenerate].boxed()
+    // long time ranges with a tiny first step (stiff-kinetics style: [0, 1e6..1e11], first_step 1e-8..1e-3): the first
+    // trial step is first_step itself, not a floor derived from the length of the interval
+    let long_range = (prob_spec(3, 0.05, 1.0), fr(6.0, 11.0), any::<bool>(), any_method(), tols(3, 3.0, 7.0), fr(-8.0, -3.0), any::<bool>()).prop_map(|(prob, e, back, method, (rtol, atol), fe, analytic_jac)| {
+        let len = 10f64.powf(e);
+        // first_step is stored as a fraction of min(max_step, 0.9*span)
+        let first_step = Some(10f64.powf(fe) / (0.9 * len));
+        let method = if method == Meth::RK4 { Meth::BDF } else { method };
+        Case { prob, span: mk_span(0.0, len, back), method, rtol, atol, max_step: None, first_step, max_steps: None, analytic_jac }
+    });
+    prop_oneof![48 => general, 2 => degenerate, 1 => long_range].boxed()
 }
 
 pub fn run(ctx: &Ctx, known: &[Known]) -> Report {
